@@ -375,7 +375,7 @@ class Run:
         # monitor call is preceded by a yield point of the facade anyway)
         getattr(self.real_monitor, names.find_attr(self.real_monitor, names.lock_like, '_init_lock')).post_yield = False
         self.monitor = LoggingMonitor(self, self.real_monitor)
-        config = m.ProcessTransferConfig(multipart_threshold=THRESHOLD, multipart_chunksize=CHUNK,
+        config = m.ProcessTransferConfig(multipart_threshold=(2 if case.get('low_threshold') else THRESHOLD), multipart_chunksize=CHUNK,
                                          max_request_processes=case['workers'])
         factory = Factory()
 
@@ -914,7 +914,7 @@ def case_sig(case):
     fs = '-' if not f else ':'.join(str(f[k]) for k in sorted(f))
     c = case.get('cancel')
     i = case.get('interrupt')
-    return (f'w{case["workers"]}/j{"+".join(map(str, case["jobs"]))}/f={fs}/'
+    return (f'w{case["workers"]}/j{"+".join(map(str, case["jobs"]))}{"/lowthr" if case.get("low_threshold") else ""}/f={fs}/'
             f'c={"-" if not c else c["download"]}/i={"-" if not i else i["how"]}')
 
 
@@ -1045,6 +1045,11 @@ def generate(ctx, batch, shapes=None, parts=(1, 2, 3), n_random=None, bases=None
                 kind = 'pct' if (n % 3 == 0) else 'random'
                 spec = {'type': kind, 'seed': rng.randrange(1 << 30), 'stick': rng.choice([0.0, 0.5, 0.8])}
                 batch.run(mk_case(workers, jobs, fault, pre_dest=(n % 4 == 0)), spec, kind)
+        if 1 in jobs:
+            # threshold below the chunk size: the 3-byte object is "ranged" with a single part
+            c_ = mk_case(workers, jobs, None)
+            c_['low_threshold'] = True
+            batch.run(c_, {'type': 'random', 'seed': rng.randrange(1 << 30), 'stick': 0.5}, 'random')
         batch.validate()
     # 2. a cancelling user at every yield index; Ctrl-C at every (second) yield index
     job_mid = {'kind': 'get', 'download': 0, 'job': 0, 'where': 'mid', 'retryable': False, 'times': 1}
@@ -1177,13 +1182,26 @@ def single_start(ctx):
     n_runs = 0
     prefixes = [[]]
     seen = set()
-    while prefixes and n_runs < (400 if ctx.thorough() else 80) and not found:
-        prefix = prefixes.pop(0)
-        if tuple(prefix) in seen:
-            continue
-        seen.add(tuple(prefix))
+    rng = ctx.rng('single-start')
+    budget = 400 if ctx.thorough() else 80
+    n_random = 300 if ctx.thorough() else 70
+    while (prefixes or n_random > 0) and not found:
         br = []
-        sched = core.Sched(chooser=Recording(core.ReplayChooser(prefix), br), max_steps=4000)
+        if prefixes and n_runs < budget:
+            prefix = prefixes.pop(0)
+            if tuple(prefix) in seen:
+                continue
+            seen.add(tuple(prefix))
+            chooser = core.ReplayChooser(prefix)
+        elif n_random > 0:
+            # beyond the deviation budget: sticky random schedules (a thread keeps running for a while)
+            n_random -= 1
+            prefixes = []
+            prefix = None
+            chooser = mk_chooser({'type': 'random', 'seed': rng.randrange(1 << 30), 'stick': rng.choice([0.5, 0.7, 0.85])})
+        else:
+            break
+        sched = core.Sched(chooser=Recording(chooser, br), max_steps=4000)
         shim = core.Shim(sched, post_yield=True)
         saved_threading = m.threading
         m.threading = shim
@@ -1204,14 +1222,7 @@ def single_start(ctx):
                 def __getattr__(self_, name):
                     return getattr(real_mp, name)
 
-            class Mon:
-                def __init__(self_):
-                    self_.n = 0
-
-                def notify_new_transfer(self_):
-                    self_.n += 1
-                    return self_.n
-            mon = Mon()
+            mon = m.TransferMonitor()       # the REAL monitor: it hands out the transfer ids
 
             class Manager:
                 def start(self_, initializer=None, initargs=()):
@@ -1235,10 +1246,12 @@ def single_start(ctx):
             patch(m.BaseS3TransferProcess, 'join', lambda proc, timeout=None: None)
             dl = m.ProcessPoolDownloader(config=m.ProcessTransferConfig(max_request_processes=1))
             errs = []
+            ids = []
 
             def user(k):
                 try:
-                    dl.download_file('b', f'k{k}', f'/nonexistent/dst{k}', expected_size=1)
+                    fut = dl.download_file('b', f'k{k}', f'/nonexistent/dst{k}', expected_size=1)
+                    ids.append(fut.meta.transfer_id)
                 except Exception as e:      # noqa
                     errs.append(repr(e))
             for k in range(2):
@@ -1259,13 +1272,18 @@ def single_start(ctx):
             m.threading = saved_threading
         n_runs += 1
         ctx.count('pool-single-start', 1, nontrivial_key=tuple(sched.choices))
+        if len(set(ids)) != len(ids):
+            found += 1
+            ctx.report('oracle:duplicate-transfer-id', f'two concurrent download_file() calls were given the same transfer id {ids}: '
+                       f'their downloads share one job counter and one done flag; schedule {list(sched.choices)}',
+                       {'kind': 'schedule', 'component': 'processpool-start', 'case': {'single_start': True, 'choices': list(sched.choices)}})
         if max(starts.values()) > 1 or errs:
             found += 1
             ctx.report('oracle:double-start', f'two concurrent first download_file() calls started the pool {starts} times '
                        f'(manager / submitter / workers){"; errors " + str(errs) if errs else ""}; schedule {list(sched.choices)}',
                        {'kind': 'schedule', 'component': 'processpool-start', 'case': {'single_start': True, 'choices': list(sched.choices)}})
         # breadth-first over deviations from the default schedule
-        for j in range(len(prefix), min(len(br), 40)):
+        for j in (range(len(prefix), min(len(br), 40)) if prefix is not None else ()):
             for c in range(1, br[j]):
                 prefixes.append(list(sched.choices[:j]) + [c])
 
@@ -1294,6 +1312,8 @@ def sub_check(ctx, focus):
     elif focus == 'interrupt':
         generate(ctx, batch, shapes=small, parts=(2, 3), n_random=80 if not ctx.thorough() else 800,
                  bases=[(2, [2], None), (2, [2, 2], None), (2, [2], job_mid)])
+    if len(ctx.violations) < 5:
+        single_start(ctx)        # concurrent first downloads: one start of the pool, distinct transfer ids
     ctx.cov.setdefault('sub_checks', []).append({'front_end': 'process pool (C19 machinery)', 'focus': focus})
 
 
